@@ -54,7 +54,7 @@ def run(ctx):
         gens = [("MapperGen_tiny.cfg", "tiny", None, None, None), ("MapperGen_small.cfg", "small", None, None, 2000),
                 ("MapperGen_small4.cfg", "small4", None, None, 1000), ("MapperSim.cfg", "sim", "num=400", 7, 2000)]
         nrandom = 2000
-    jobs = [(lambda c=c: tlc.run("Mapper", c, tag="c09mc" + c[9:-4], timeout=12000, workers=None if not quick else 5)) for c in mcs]
+    jobs = [(lambda c=c: tlc.run("Mapper", c, tag="c09mc" + c[9:-4], timeout=12000, workers=None if not quick else 2)) for c in mcs]
     jobs += [(lambda c=c: tlc.run("Mapper", c, expect_violation=True, tag="c09rej" + c[9:-4], timeout=3000, workers=2)) for c in rej]
     jobs += [(lambda g=g: c09run.gen_tlc(ctx.seed, g[0], g[1], g[2], g[3], g[4])) for g in gens]
     out = c09run.parallel(jobs)
